@@ -196,11 +196,14 @@ void ThreadPoolExecutor::keep_balance() noexcept {
     _local_task_queues.for_each([&](TaskQueue* iter, TaskQueue* end) {
       while (iter != end) {
         auto& queue = *iter++;
-        bool success = true;
-        while (success) {
-          success = queue.try_pop<true, false>([&](Task& task) {
-            enqueue_task(::std::move(task));
-          });
+        // Move the task out first and release the local slot before the
+        // (possibly blocking) push into the global queue. Forwarding from
+        // inside the pop callback keeps the slot occupied while blocked, and
+        // the owner of the local queue, once it wraps around to that slot,
+        // spins forever when it is the worker the global queue is waiting for.
+        Task task;
+        while (queue.try_pop<true, false>(task)) {
+          enqueue_task(::std::move(task));
         }
       }
     });
